@@ -49,7 +49,7 @@ type analysis struct {
 	class    []string // eventClass per event
 	stepIdx  []int    // workload step index per event (-1: opening the chain)
 	stepKind []string // step kind per event ("open", "insert", "sethead", "stop", "reopen")
-	reorgEnd []int    // for event i inside a reorg window: index of the block batch that ends it, else -1
+	reorgEnd []int    // for event i inside a reorg window: index of the last event of the window, else -1
 	final    common.Hash
 	cleanRun bool // journal of a crash-free, failure-free run
 }
@@ -73,39 +73,42 @@ func analyse(wl *Workload, run *Run) *analysis {
 		}
 		a.reorgEnd[i] = -1
 	}
-	// reorg windows: from the first head-pointer write that does not extend the
-	// previous head (inside an import) to the flush of the incoming block's batch
+	// Reorg windows. A window opens, inside an import step, at the first write of
+	// the head pointer (a single put or a batch flush carrying it) whose value
+	// neither is nor extends the previous head - the first re-pointing step of a
+	// reorganisation - and runs to the last write of that block's import group
+	// (the event before the next block's total-difficulty put, or the end of the
+	// API call). A number-index put immediately before the opening head put
+	// belongs to the same re-pointing step.
 	cur := common.BytesToHash(a.base[keyLastBlock])
 	start := -1
-	for i := range a.evs {
-		if a.stepKind[i] != "insert" {
-			if a.class[i] == "put_head_block" {
-				cur = common.BytesToHash(a.evs[i].Ops[0].Val)
+	closeAt := func(end int) {
+		if start >= 0 {
+			for x := start; x <= end; x++ {
+				a.reorgEnd[x] = end
 			}
 			start = -1
+		}
+	}
+	for i := range a.evs {
+		if i > 0 && start >= 0 && (a.evs[i].Step != a.evs[i-1].Step || a.class[i] == "put_td") {
+			closeAt(i - 1)
+		}
+		v, isHead := headWrite(&a.evs[i])
+		if !isHead {
 			continue
 		}
-		switch a.class[i] {
-		case "put_head_block":
-			v := common.BytesToHash(a.evs[i].Ops[0].Val)
-			if b := wl.Lookup(v); b != nil && v != cur && b.ParentHash() != cur && start < 0 {
+		if a.stepKind[i] == "insert" && start < 0 {
+			if b := wl.Lookup(v); b != nil && v != cur && b.ParentHash() != cur {
 				start = i
-				// the number-index write that precedes this head write belongs
-				// to the same re-pointing step
-				if i > 0 && a.class[i-1] == "put_canonical" && a.stepIdx[i-1] == a.stepIdx[i] {
+				if i > 0 && a.class[i-1] == "put_canonical" && a.evs[i-1].Step == a.evs[i].Step {
 					start = i - 1
 				}
 			}
-			cur = v
-		case "block_batch_write":
-			if start >= 0 {
-				for x := start; x <= i; x++ {
-					a.reorgEnd[x] = i
-				}
-				start = -1
-			}
 		}
+		cur = v
 	}
+	closeAt(n - 1)
 	return a
 }
 
@@ -120,7 +123,7 @@ func (a *analysis) label(k int) string {
 	}
 	switch kind := a.stepKind[k]; kind {
 	case "insert":
-		// inside a reorg: its first head write is applied, the block batch is not
+		// inside a reorg: its first re-pointing write is applied, its last write is not
 		if a.reorgEnd[k] >= 0 && a.reorgEnd[k-1] == a.reorgEnd[k] {
 			return "import_reorg"
 		}
